@@ -132,11 +132,22 @@ theorem list_stops_at_break (fuel : Nat) (s : St) (it : Item) (rest : List Item)
   subst h
   rfl
 
+/-- with no trap action due, the poll after a command changes nothing -/
+theorem pollWith_none (run : St → List Item → St × Res) (s : St) (r : Res) (h : s.trapDue = none) :
+    pollWith run s r = (s, r) := by
+  unfold pollWith
+  cases r <;> simp [h]
+
+/-- while a trap action runs no other one starts -/
+theorem trapDue_in_trap (s : St) (h : s.stack.contains .trap = true) : s.trapDue = none := by
+  unfold St.trapDue; rw [h]; simp
+
 theorem script_stops_at_break (fuel : Nat) (s : St) (line : List Item) (rest : List Line) (d : Divert)
+    (hq : s.trapDue = none)
     (h : (execList fuel s line).2 = .break_ d) :
     runScript (fuel+1) s (.cmds line :: rest) =
       ((execList fuel s line).1.applyResult (.break_ d), .break_ d) := by
-  simp only [runScript]
+  simp only [runScript, pollWith_none _ s _ hq]
   generalize execList fuel s line = x at *
   obtain ⟨s1, r⟩ := x
   simp only at h
@@ -183,6 +194,55 @@ theorem no_errexit_continues (fuel : Nat) (s : St) (he : s.errexit = false) :
   · simp [execCmd, finishSimple, h]
   · intro k hk; cases k <;> simp_all [execCmd]
 
+/-! ### signal traps at command boundaries: an abort is never downgraded -/
+
+theorem divert_le_rank (a b : Divert) : (a.le b = true → a.rank ≤ b.rank) ∧ (a.le b = false → b.rank ≤ a.rank) := by
+  unfold Divert.le
+  constructor
+  · intro h
+    by_cases h1 : a.rank < b.rank
+    · omega
+    · by_cases h2 : b.rank < a.rank
+      · simp [h1, h2] at h
+      · omega
+  · intro h
+    by_cases h1 : a.rank < b.rank
+    · simp [h1] at h
+    · omega
+
+/-- When a command ends in a divert and the action of a signal caught meanwhile ends in one too, the
+    more severe one is what the shell follows: the result is one of the two and at least as severe as
+    both. -/
+theorem trap_divert_merge (p : Nat) (s2 : St) (m d : Divert) :
+    (finishPoll p s2 (.break_ m) (.break_ d)).2 = .break_ (m.max d) ∧
+    (m.max d = m ∨ m.max d = d) ∧ m.rank ≤ (m.max d).rank ∧ d.rank ≤ (m.max d).rank := by
+  refine ⟨by simp [finishPoll], ?_, ?_, ?_⟩
+  · unfold Divert.max; split <;> simp
+  · unfold Divert.max
+    split
+    · rename_i h; exact (divert_le_rank m d).1 h
+    · exact Nat.le_refl _
+  · unfold Divert.max
+    split
+    · exact Nat.le_refl _
+    · rename_i h; exact (divert_le_rank m d).2 (by simpa using h)
+
+/-- In particular the abort of errexit (`Exit`) or of a shell error (`Interrupt`) survives a trap
+    action that says `return`: the function is not resumed. -/
+theorem abort_survives_trap_return (p : Nat) (s2 : St) (e x : Option Nat) :
+    (finishPoll p s2 (.break_ (.exit e)) (.break_ (.return_ x))).2 = .break_ (.exit e) ∧
+    (finishPoll p s2 (.break_ (.interrupt e)) (.break_ (.return_ x))).2 = .break_ (.interrupt e) := by
+  constructor <;> simp [finishPoll, Divert.max, Divert.le, Divert.rank]
+
+/-- a trap action is polled after every command whatever the command's result was (a diverting
+    command does not skip it), except when fuel ran out or nothing is due -/
+theorem poll_runs_after_divert (run : St → List Item → St × Res) (s1 : St) (d : Divert) (body : List Item)
+    (hd : s1.trapDue = some body) :
+    pollWith run s1 (.break_ d) =
+      finishPoll s1.status (run ({ s1 with pending := false }.push .trap) body).1.pop (.break_ d)
+        (run ({ s1 with pending := false }.push .trap) body).2 := by
+  simp [pollWith, hd]
+
 /-! ### ★ exit_trap_once -/
 
 /-- an error that interrupts the EXIT action with a status of its own (expansion, assignment or syntax
@@ -208,10 +268,12 @@ theorem runExitTrap_probe (fuel : Nat) (s1 : St) (m : Nat)
   have key : execList (fuel+5) (s1.push .trap) [.mk (.mk false [.probe m]) []] =
       ({ s1.push .trap with trace := (m, s1.status) :: s1.trace },
        ({ s1.push .trap with trace := (m, s1.status) :: s1.trace } : St).applyErrexit) := by
+    have hq : ({ s1.push .trap with trace := (m, s1.status) :: s1.trace } : St).trapDue = none :=
+      trapDue_in_trap _ (by simp [St.push])
     simp only [execList, execItem, execPipeline, execCommands, execCmd, finishSimple, Bool.not_false, if_true]
     rcases errexit_otherwise_continues ({ s1.push .trap with trace := (m, s1.status) :: s1.trace }) with h | h
-    · simp only [St.push] at h ⊢; rw [h]
-    · simp only [St.push] at h ⊢; rw [h]
+    · simp only [St.push] at h hq ⊢; rw [h]; simp only [pollWith_none _ _ _ hq]
+    · simp only [St.push] at h hq ⊢; rw [h]; simp only [pollWith_none _ _ _ hq]
   unfold runExitTrap
   rw [ht]
   simp only [key]
